@@ -134,8 +134,13 @@ func (c14) soakRound(ctx *core.Ctx, cs *core.Case) {
 		case 2:
 			return c14result(canonicalizer.GoogleSafeBrowsing.Parse(in))
 		default:
-			// distinct, page-length base strings in flight at the same time
-			return c14result(url.ParseRef("http://base"+fmt.Sprint(i%5000)+".example/a/rather/long/directory/path/index.html?session="+fmt.Sprint(i%5000), in[strings.Index(in, "//"):]))
+			// distinct, page-length base strings in flight at the same time; the reference is path-relative,
+			// so the result shows which base it was resolved against
+			res := c14result(url.ParseRef("http://base"+fmt.Sprint(i%5000)+".example/a/rather/long/directory/path/index.html?session="+fmt.Sprint(i%5000), fmt.Sprintf("rel%d/x?y=%d", i, i)))
+			if !strings.HasPrefix(res, "http://base"+fmt.Sprint(i%5000)+".example/a/rather/long/directory/path/rel") {
+				return "RESOLVED AGAINST ANOTHER BASE: " + res
+			}
+			return res
 		}
 	}
 	// victims: values obtained BEFORE the soak (and results resolved against them) must still say
@@ -181,7 +186,7 @@ func (c14) soakRound(ctx *core.Ctx, cs *core.Case) {
 			for i := g; i < N; i += K {
 				for obj := 0; obj < 4; obj++ {
 					res := call(obj, i)
-					if i%37 == 0 {
+					if i%37 == 0 || strings.HasPrefix(res, "RESOLVED AGAINST") {
 						samples[g] = append(samples[g], sample{obj, i, res})
 					}
 				}
@@ -191,7 +196,7 @@ func (c14) soakRound(ctx *core.Ctx, cs *core.Case) {
 				i := rg.IntN(N * 5 / 6)
 				obj := rg.IntN(4)
 				res := call(obj, i)
-				if k%23 == 0 {
+				if k%23 == 0 || strings.HasPrefix(res, "RESOLVED AGAINST") {
 					samples[g] = append(samples[g], sample{obj, i, res})
 				}
 			}
